@@ -7,11 +7,10 @@ C24 — Shift-DFA scanners agree with the lexer tables they pack (property theor
 and ALL byte strings; `WFBytes` is the decidable well-formedness of byte-mode lexer tables that every
 output of `lex.Compile(…, scanBytes = true, …)` satisfies (the driver evaluates it on every real table).
 
-Finding: the guard of `Pack` (`LastMapEntry.Start > 0xff`) does not imply what the packing needs
-(all bytes `≥ 0x80` belong to the last symbol-map entry, i.e. `Start ≤ 0x80`). With the real guard the
-statement `C24_pack_agrees_full` is FALSE (`C24_pack_guard_insufficient`); it holds under the extra
-hypothesis (`C24_pack_agrees_partial`) and for every guard constant `≤ 0x80`
-(`C24_pack_agrees_for_guard_le_0x80`, i.e. for `Pack` after fixes/C24-pack-guard.diff).
+History: before fixes/C24-pack-guard.diff the guard of `Pack` was `LastMapEntry.Start > 0xff`, which does
+not imply what the packing needs (all bytes `≥ 0x80` belong to the last symbol-map entry, i.e.
+`Start ≤ 0x80`); `C24_old_guard_insufficient` keeps the witness, `C24_pack_rejects_old_witness` shows
+that the fixed `Pack` rejects it.
 -/
 namespace TmVerif.ShiftDfa
 open TmVerif.LexTables
@@ -32,16 +31,11 @@ theorem agree_of (guard : Int) (t : Tables) (s : Scanner)
   rw [if_pos hw.1]
   exact packWith_agrees guard t s hg hw.2 h input
 
-/-- The full statement for the code as it is (guard `> 0xff`): false, see below. -/
-def C24_pack_agrees_full : Prop :=
-  ∀ (t : Tables) (s : Scanner), pack t = .ok s → WFBytes t = true → ∀ input, Agree t s input
-
-/-- `Pack` as it is: agreement on every byte string for accepted well-formed byte-mode tables whose
-last symbol-map entry starts at or below 0x80 (so that every byte `≥ 0x80` is in its class). -/
-theorem C24_pack_agrees_partial (t : Tables) (s : Scanner) (hp : pack t = .ok s)
-    (hw : WFBytes t = true) (hlast : ∀ e, t.symbolMap.back? = some e → e.start ≤ 0x80)
+/-- `Pack` (guard `> 0x80`): for ALL well-formed byte-mode tables it accepts and ALL byte strings the
+packed scanner returns what `Tables.Scan(0, ·)` returns. -/
+theorem C24_pack_agrees (t : Tables) (s : Scanner) (hp : pack t = .ok s) (hw : WFBytes t = true)
     (input : List UInt8) : Agree t s input :=
-  agree_of asciiGuard t s (Or.inr hlast) hw hp input
+  agree_of asciiGuard t s (Or.inl (by decide)) hw hp input
 
 /-- `Pack` with any guard constant `≤ 0x80` (the fixed code has `0x80`): full agreement, the guard
 is part of `packWith … = ok`. -/
@@ -81,16 +75,10 @@ theorem pack_eq_packed (t : Tables) (h : packOk t = true) : pack t = .ok (packed
   | ok s => rfl
   | error e => rw [hp] at h; exact nomatch h
 
--- non-vacuity of `C24_pack_agrees_partial` / `…_for_guard_le_0x80`: a real table satisfies all hypotheses
+-- non-vacuity of `C24_pack_agrees` / `…_for_guard_le_0x80`: a real table satisfies all hypotheses
 set_option maxRecDepth 100000 in
-example : pack sampleTables = .ok (packed sampleTables) ∧ WFBytes sampleTables = true ∧
-    (∀ e, sampleTables.symbolMap.back? = some e → e.start ≤ 0x80) := by
-  refine ⟨pack_eq_packed _ (by decide +kernel), by decide +kernel, ?_⟩
-  intro e he
-  have : sampleTables.symbolMap.back? = some ⟨123, 1⟩ := by decide +kernel
-  rw [this] at he
-  cases he
-  decide
+example : pack sampleTables = .ok (packed sampleTables) ∧ WFBytes sampleTables = true :=
+  ⟨pack_eq_packed _ (by decide +kernel), by decide +kernel⟩
 
 set_option maxRecDepth 100000 in
 example : ∃ s, packWith 0x80 sampleTables = .ok s :=
@@ -102,26 +90,44 @@ example : ∃ s, packWith 0x80 sampleTables = .ok s :=
     rw [h] at this
     exact nomatch this
 
+def packedOld (t : Tables) : Scanner := match packWith 0xff t with | .ok s => s | .error _ => default
+
 set_option maxRecDepth 100000 in
-/-- The guard `> 0xff` is insufficient: the tables of `a`, `[\x90-\x9f]+`, `b+` are well-formed and
-accepted; row `0x95` of the packed table carries in field 0 the code of cell `(0, last class)`, which
-is the "invalid token" action, so the packed scanner returns `(0, 0)` on `"\x95\x95a"`, whereas the
-lexer tables return `(2, 2)`. -/
-theorem C24_pack_guard_insufficient : ¬ C24_pack_agrees_full := by
+/-- The old guard `> 0xff` was insufficient: the tables of `a`, `[\x90-\x9f]+`, `b+` are well-formed
+and were accepted; the packed scanner returns `(0, 0)` on `"\x95\x95a"`, the lexer tables `(2, 2)`. -/
+theorem C24_old_guard_insufficient :
+    ¬ ∀ (t : Tables) (s : Scanner), packWith 0xff t = .ok s → WFBytes t = true → ∀ input, Agree t s input := by
   intro h
-  have hp : pack witnessTables = .ok (packed witnessTables) := pack_eq_packed _ (by decide +kernel)
+  have hok : (match packWith 0xff witnessTables with | .ok _ => true | .error _ => false) = true := by
+    decide +kernel
+  have hp : packWith 0xff witnessTables = .ok (packedOld witnessTables) := by
+    unfold packedOld
+    cases hq : packWith 0xff witnessTables with
+    | ok s => rfl
+    | error e => rw [hq] at hok; exact nomatch hok
   have hw : WFBytes witnessTables = true := by decide +kernel
-  have h1 := h witnessTables (packed witnessTables) hp hw witnessInput (fun _ => [])
+  have h1 := h witnessTables (packedOld witnessTables) hp hw witnessInput (fun _ => [])
   have h2 : lexScan (fun _ => []) witnessTables 0 witnessInput = some (2, 2) := by decide +kernel
-  have ps := packWith_spec asciiGuard witnessTables (packed witnessTables)
+  have ps := packWith_spec 0xff witnessTables (packedOld witnessTables)
     (wf_of_wf _ (by decide +kernel)) hp
   have hf := ps.fld 0x95 0 (by decide) (by decide +kernel)
   have hv : cellVal witnessTables witnessTables.numSymbols.toNat 0 (packCls witnessTables 0x95) = 1 := by
     decide +kernel
   rw [hv] at hf
-  have h3 : (packed witnessTables).scan witnessInput = (0, 0) :=
-    scan_first_odd (packed witnessTables) 0x95 [0x95, 0x61] 1 hf (by decide)
+  have h3 : (packedOld witnessTables).scan witnessInput = (0, 0) :=
+    scan_first_odd (packedOld witnessTables) 0x95 [0x95, 0x61] 1 hf (by decide)
   rw [h2, h3] at h1
   exact absurd h1 (by decide)
+
+/-- The fixed `Pack` rejects the witness tables ("only ASCII automatons are supported"). -/
+theorem C24_pack_rejects_old_witness : pack witnessTables = .error .notAscii := by
+  have hk : (match pack witnessTables with | .error e => decide (e = .notAscii) | .ok _ => false) = true := by
+    decide +kernel
+  cases h : pack witnessTables with
+  | ok s => rw [h] at hk; exact nomatch hk
+  | error e =>
+    rw [h] at hk
+    simp only [decide_eq_true_eq] at hk
+    rw [hk]
 
 end TmVerif.ShiftDfa
